@@ -24,7 +24,7 @@ if [ "${ALT_FROM_HEAD:-0}" = "1" ]; then
   # committed state of /verif only (other people's uncommitted work-in-progress must not leak into a measurement)
   mkdir -p $ALT/verif $ALT/head
   rm -rf $ALT/head/*; git -C "$V" archive HEAD | tar -x -C $ALT/head
-  rsync -a --delete --checksum --exclude '/harness/target*' --exclude /work --exclude /replays --exclude /evidence --exclude /seeded --exclude '/lean/.lake' $ALT/head/ $ALT/verif/
+  rsync -rlpc --delete --exclude '/harness/target*' --exclude /work --exclude /replays --exclude /evidence --exclude /seeded --exclude '/lean/.lake' $ALT/head/ $ALT/verif/
   [ -d $ALT/verif/lean/.lake ] || cp -r "$V"/lean/.lake $ALT/verif/lean/.lake
 else
   rsync -a --delete --exclude '/harness/target*' --exclude /work --exclude /replays --exclude /.git --exclude /evidence --exclude /seeded "$V"/ $ALT/verif/
